@@ -1,9 +1,161 @@
 import KG.Base.Json
-/-! Driver entry points for property C04 (filled in by the C04 model). -/
-namespace KG.Driver.C04
-open Lean
+import KG.Spec.Forward
+/-! Driver entry points for property C04. Byte strings travel as hex.
 
-/-- `handle method args`: `none` when the method is unknown. -/
-def handle (_m : String) (_a : Json) : Option (Except String Json) := none
+* `C04.url {target}`: the request target the transport writes (model), plus the judges on the model's own output.
+* `C04.forward {req, closeIdle, up}`: the model's upstream request and client response (canonicalised).
+* `C04.judge {req, closeIdle, up, seenUp, seenClient}`: the judges of `KG.Spec.Forward` on what the REAL upstream / client observed.
+* `C04.decide {scenario}`: the model's outcome (`serve`) and the closed-form table.
+* `C04.judgeTerm {scenario, obs}`: the judges for a gateway-terminated answer on a real observation. -/
+namespace KG.Driver.C04
+open Lean KG KG.Model.Forward KG.Spec.Forward
+
+def decodeLines (j : Json) (k : String) : Except String (List (Str × Str)) := do
+  (← J.getArr j k).toList.mapM fun e => do
+    match (← e.getArr?).toList with
+    | [a, b] => pure (← J.asHex a, ← J.asHex b)
+    | _ => throw "header line is not a pair"
+
+def decodeHdr (j : Json) (k : String) : Except String Hdr := do
+  (← J.getArr j k).toList.mapM fun e => do
+    pure (← J.getHex e "name", ← J.getHexList e "values")
+
+def encodeHdr (h : Hdr) : Json :=
+  Json.arr (h.map fun e => J.obj [("name", J.hex e.1), ("values", J.hexList e.2)]).toArray
+
+def decodeReq (j : Json) : Except String Req := do
+  let ip ← J.getHex j "ip"
+  pure { method := ← J.getHex j "method", target := ← J.getHex j "target", host := ← J.getHex j "host",
+         lines := ← decodeLines j "lines", body := ← J.getHex j "body",
+         remoteIP := if ip = [] then none else some ip }
+
+def encodeUpReq (lines : List (Str × Str)) (u : UpReq) : Json :=
+  J.obj [("method", J.hex u.method), ("target", J.hex u.target), ("host", J.hex u.host),
+         ("headers", encodeHdr (canonReqHeaders lines u.headers)), ("body", J.hex u.body)]
+
+def decodeUpReq (j : Json) : Except String UpReq := do
+  pure { method := ← J.getHex j "method", target := ← J.getHex j "target", host := ← J.getHex j "host",
+         headers := ← decodeHdr j "headers", body := ← J.getHex j "body" }
+
+def encodeReqVerdict (v : ReqVerdict) : Json :=
+  J.obj [("method", J.bool v.method), ("host", J.bool v.host), ("body", J.bool v.body), ("pathExact", J.bool v.pathExact),
+         ("pathDecoded", J.bool v.pathDecoded), ("pathNorm", J.bool v.pathNorm), ("query", J.bool v.query),
+         ("headers", J.bool v.headers)]
+
+def encodeRespVerdict (v : RespVerdict) : Json :=
+  J.obj [("status", J.bool v.status), ("body", J.bool v.body), ("headers", J.bool v.headers)]
+
+def optStr : Option Str → Json
+  | some s => J.hex s
+  | none => Json.null
+
+/-- pieces of the URL pipeline, for the fast pure stream -/
+def doUrl (a : Json) : Except String Json := do
+  let t ← J.getHex a "target"
+  let p := (cut 63 t).1
+  let q := (cut 63 t).2
+  let out := targetPipeline t
+  let pairs := parseQuery q
+  pure <| J.obj [
+    ("out", optStr out),
+    ("path", optStr (setPath p |>.map (·.path))),
+    ("rawPath", optStr (setPath p |>.map (·.rawPath))),
+    ("valid", J.bool (validEncoded p)),
+    ("query", J.hex (encodeQuery pairs)),
+    ("pairs", Json.arr (pairs.map fun e => Json.arr #[J.hex e.1, J.hex e.2]).toArray),
+    ("pathExact", J.bool (match out with | some o => targetOK pathExact t o | none => true)),
+    ("pathDecoded", J.bool (match out with | some o => targetOK pathDecoded t o | none => true)),
+    ("pathNorm", J.bool (match out with | some o => targetOK pathNorm t o | none => true)),
+    ("queryOK", J.bool (match out with | some o => queryOK q (cut 63 o).2 | none => true))]
+
+def doForward (a : Json) : Except String Json := do
+  let r ← decodeReq (← J.getObj a "req")
+  let closeIdle ← J.getBool a "closeIdle"
+  let up ← J.getObj a "up"
+  let upStatus ← J.getNat up "status"
+  let upLines ← decodeLines up "lines"
+  let upBody ← J.getHex up "body"
+  let h0 := afterAuthentication (parseHeaders r.lines)
+  let upgrade := isUpgradeRequest h0
+  match forwardRequest r with
+  | none => pure <| J.obj [("accepted", J.bool false), ("upgrade", J.bool upgrade)]
+  | some u =>
+    let resp := relayResponse closeIdle upStatus upLines upBody
+    let upParsed := parseHeaders upLines
+    let canonU : UpReq := { u with headers := canonReqHeaders r.lines u.headers }
+    let canonR : Resp := { resp with headers := canonRespHeaders upParsed resp.headers }
+    pure <| J.obj [
+      ("accepted", J.bool true), ("upgrade", J.bool upgrade),
+      ("upgradeType", J.hex (upgradeType (director h0))),
+      ("up", encodeUpReq r.lines u),
+      ("client", J.obj [("status", J.nat resp.status), ("headers", encodeHdr canonR.headers), ("body", J.hex resp.body)]),
+      ("reqVerdict", encodeReqVerdict (reqVerdict r canonU)),
+      ("respVerdict", encodeRespVerdict (respVerdict closeIdle upStatus upLines upBody canonR))]
+
+def doJudge (a : Json) : Except String Json := do
+  let r ← decodeReq (← J.getObj a "req")
+  let closeIdle ← J.getBool a "closeIdle"
+  let up ← J.getObj a "up"
+  let upStatus ← J.getNat up "status"
+  let upLines ← decodeLines up "lines"
+  let upBody ← J.getHex up "body"
+  let seenUp ← decodeUpReq (← J.getObj a "seenUp")
+  let sc ← J.getObj a "seenClient"
+  let client : Resp := { status := ← J.getNat sc "status", headers := ← decodeHdr sc "headers", body := ← J.getHex sc "body" }
+  pure <| J.obj [("req", encodeReqVerdict (reqVerdict r seenUp)),
+                 ("resp", encodeRespVerdict (respVerdict closeIdle upStatus upLines upBody client))]
+
+def decodeImp (s : String) : Except String Imp :=
+  match s with
+  | "none" => pure .none
+  | "malformed" => pure .malformed
+  | "refused" => pure .refused
+  | "allowed" => pure .allowed
+  | _ => throw s!"unknown impersonation kind {s}"
+
+def decodeScenario (j : Json) : Except String Scenario := do
+  pure { hostIsIP := ← J.getBool j "hostIsIP", clusterKnown := ← J.getBool j "clusterKnown", denyAll := ← J.getBool j "denyAll",
+         authOK := ← J.getBool j "authOK", imp := ← decodeImp (← J.getStr j "imp"), policyMatches := ← J.getBool j "policyMatches",
+         acquireOK := ← J.getBool j "acquireOK", resource := ← J.getHex j "resource", popOK := ← J.getBool j "popOK" }
+
+def optNat : Option Nat → Json
+  | some n => J.nat n
+  | none => J.int (-1)
+
+def encodeOutcome : Outcome → Json
+  | .notProxied => J.obj [("kind", Json.str "notProxied")]
+  | .forward => J.obj [("kind", Json.str "forward")]
+  | .plainError c => J.obj [("kind", Json.str "plain"), ("code", J.nat c)]
+  | .terminated a => J.obj [("kind", Json.str "terminated"), ("code", J.nat a.httpCode), ("retryAfter", optNat a.retryAfter),
+                            ("reason", J.hex a.body.reason), ("statusCode", J.nat a.body.code)]
+
+def doDecide (a : Json) : Except String Json := do
+  let s ← decodeScenario (← J.getObj a "scenario")
+  pure <| J.obj [("outcome", encodeOutcome (serve s)), ("table", encodeOutcome (table s))]
+
+def decodeObs (j : Json) : Except String TermObs := do
+  let ra ← J.getInt j "retryAfter"
+  pure { httpCode := ← J.getNat j "httpCode", retryAfter := if ra < 0 then none else some ra.toNat,
+         isStatus := ← J.getBool j "isStatus",
+         body := ⟨← J.getHex j "kind", ← J.getHex j "apiVersion", ← J.getHex j "status", ← J.getHex j "reason", ← J.getNat j "code"⟩,
+         upstreamRequests := ← J.getNat j "upstreamRequests", upstreamBytes := ← J.getNat j "upstreamBytes" }
+
+def doJudgeTerm (a : Json) : Except String Json := do
+  let s ← decodeScenario (← J.getObj a "scenario")
+  let o ← decodeObs (← J.getObj a "obs")
+  let out := serve s
+  let row := match out with
+    | .terminated ans => matchesRow ans o
+    | _ => false
+  pure <| J.obj [("outcome", encodeOutcome out), ("wellFormed", J.bool (wellFormed o)), ("matchesRow", J.bool row)]
+
+def handle (m : String) (a : Json) : Option (Except String Json) :=
+  match m with
+  | "url" => some (doUrl a)
+  | "forward" => some (doForward a)
+  | "judge" => some (doJudge a)
+  | "decide" => some (doDecide a)
+  | "judgeTerm" => some (doJudgeTerm a)
+  | _ => none
 
 end KG.Driver.C04
